@@ -69,8 +69,22 @@ def real_case(case):
                 p = p.extract(op.domain)
             cst = p.extract_by_keys(S)
             c_out, sop = op.simplify_for_constant_input(cst)
+            # trivial paths of the generic rule: nothing constant, everything constant
+            triv = []
+            o_none = op.simplify_for_constant_input(None)
+            if o_none[0] is not None or o_none[1] is not op:
+                triv.append("simplify_for_constant_input(None) does not return (None, self)")
+            if not b.single:
+                c_all, op_all = op.simplify_for_constant_input(p)
+                if len(op_all.domain.keys()) != 0:
+                    triv.append("with every key constant the simplified operator still has input keys")
+                else:
+                    e0 = ift.full(op_all.domain, 0.)
+                    la = op_all(ift.Linearization.make_var(e0, wm))
+                    if not close(X.to_flat(la.val, tdom), r0["pval"], 1e-12) or not close(X.to_flat(op_all(e0), tdom), r0["pval"], 1e-12):
+                        triv.append("with every key constant the simplified operator does not return the original value")
             dvar = {k: v for k, v in din.items() if k not in S}
-            res = dict(orig=r0, din=din, dvar=dvar, c_out_none=c_out is None,
+            res = dict(orig=r0, triv=triv, din=din, dvar=dvar, c_out_none=c_out is None,
                        keys=sorted(sop.domain.keys()), target_same=sop.target is op.target)
             bv = X.Builder(dvar, case.get("space", "U"))
             res["simp"] = X.linearize(bv, sop, tdom, {k: x[k] for k in dvar}, wm)
@@ -116,6 +130,8 @@ def oracle(case):
     if "error" in r:
         return (f"raised {r['error']} in {r.get('where')}: {r.get('msg')}", dict(sig, kind="error:" + r["error"], where=r.get("where")))
     o, s, S = r["orig"], r["simp"], case["S"]
+    if r.get("triv"):
+        return (r["triv"][0], dict(sig, kind="trivial-path"))
     cols = var_cols(r["din"], S)
     if r["keys"] != sorted(r["dvar"]):
         return (f"simplified operator reads {r['keys']}, expected {sorted(r['dvar'])}", dict(sig, kind="domain"))
